@@ -10,6 +10,11 @@ CHECKS = {
          "CanonicalIsomorph is run on every labelled graph with n <= 7 (all 2^28 with n = 8 in thorough), on every isomorphism class with n <= 8 under 64 (512) seeded relabellings in dense and sparse form, on ~100 structured families up to n = 64 and on seeded graphs; the harness recomputes the canonical graph from its own matrix and requires identity across relabellings/representations, and the number of distinct canonical graphs of a complete sweep to equal the number of classes. This is what found the pinned defect (2 of 12346 classes, 9 % of relabellings). Holds on what was observed; above n = 8 only families and samples.",
          "Trusts the harness relabelling code, the Polya count (checked against A000088) and, for n >= 9 only, search.All as input source.",
          "DESIGN.md section 4 C01"),
+ "C02": ("exploration",
+         "runtime monitoring: per-call oracle (independent automorphism search + Schreier-Sims group order), metamorphic relabelling with classes carried along, reuse histories compared with fresh calls",
+         "Every (perm, orbits, generators) triple returned for all classes n <= 8, ~100 families with analytically known |Aut|, all ordered set partitions as vertex classes for all classes n <= 4 (n = 5 thorough) and seeded cases is judged: generators are automorphisms, orbits equal the true orbit partition, |<gens>| = |Aut|; histories of 50-300 graphs through one reused storage/partition pair must equal fresh calls exactly. Found and drove the repair of three vertex-class defects. Holds on what was observed; |Aut| oracle bounds the sizes.",
+         "Trusts iso.Automorphisms / iso.GroupOrder (validated on known groups at start-up and against ~90 table values in the harness tests).",
+         "DESIGN.md section 4 C02"),
  "C05": ("exploration",
          "runtime monitoring: model-based lock-step oracle over edit histories on DenseGraph and SparseGraph (bounded-exhaustive + seeded), all observers after every operation",
          "Every operation of every generated edit history is applied to a DenseGraph, a SparseGraph and a bit-matrix model; after each operation N, M, IsEdge (all ordered pairs), Neighbours and Degrees of every live graph (sources, copies, induced subgraphs) are compared with the models, so aliasing and stale cached counts surface at the first operation that exposes them. All histories of length <= 4 (5 thorough) from 8 small start graphs are enumerated; seeded histories reach n = 12 (40 thorough). Holds on what was observed.",
